@@ -97,6 +97,18 @@ func (n *rnode) encode(target *int, dev int, applied *string) []byte {
 		for _, k := range kids {
 			body = append(body, k.encode(target, dev, applied)...)
 		}
+		if here && n.list && dev == 14 {
+			// a list whose announced size is honest but enormous for what it holds: ONE string of
+			// just under 1 MiB. A decoder that sizes a buffer from the announced BYTE size of the
+			// list (times the element size) allocates far beyond the input before it looks at the
+			// first element; a decoder that allocates per element present does not. (A first version
+			// held a million empty strings: decoding those into [][]byte legitimately costs 24 bytes
+			// per 1-byte element, which tripped the coarse 64 MiB bound on the unchanged tree.)
+			*applied = "list-bloated"
+			str := make([]byte, 1_040_000)
+			body = append(lenPrefix(0x80, len(str), false), str...)
+			return append(lenPrefix(0xc0, len(body), false), body...)
+		}
 		if here && n.list && dev == 11 {
 			*applied = "list-as-string"
 			return append(lenPrefix(0x80, len(body), false), body...)
@@ -244,7 +256,7 @@ func MutateStructured(c *kit.Chooser, data []byte) (out []byte, how string, ok b
 	n := root.count()
 	for attempt := 0; attempt < 6; attempt++ {
 		t := c.Intn("item", n)
-		dev := c.Intn("deviation", 14)
+		dev := c.Intn("deviation", 15)
 		applied := ""
 		out := root.encode(&t, dev, &applied)
 		if applied != "" {
